@@ -18,7 +18,7 @@ pub fn def() -> CheckDef {
         rule: "case = generated model of the bounded grammar (depth<=3, <=4 steps, <=3 branches, <=3 acts, conditions over inputs a,b in 0..3) x one valuation x three variants (declared branch order / shuffled / reversed, each under another scheduler policy, clock-tie rate and client mode); every variant is compared with the reference interpreter RefFlow (which nodes run, final states, ordering constraints on the trace) and the variants with each other (metamorphic: the outcome must not depend on declaration order or schedule). non-trivial = the model has a branching step or a conditional node and the three runs took >= 2 distinct schedules; distinct = distinct (model+valuation hash, schedule hash)",
         level: "exploration",
         assumptions: &["monotone simulated clock", "RefFlow interprets the fragment without writers, generators, catches and jumps; a needs-branch whose needed sibling was skipped is left open (either)", "runtime worker threads are approximated by task-level interleaving on layer 1"],
-        probes: &["probe.else_taken", "probe.else_not_taken", "probe.needs_ran", "probe.step_skipped", "probe.act_skipped", "probe.nested_depth3", "probe.either_nodes"],
+        probes: &["probe.else_taken", "probe.else_not_taken", "probe.needs_ran", "probe.step_skipped", "probe.act_skipped", "probe.nested_depth3", "probe.either_nodes", "probe.loop_model", "probe.loop_taken_twice_or_more"],
         quick_cases: 2500,
         no_shrink: &[],
     }
@@ -33,14 +33,204 @@ fn gen_scenario(rng: &mut vsim::rng::Rng) -> Scenario {
     cfg.p_act_if = *rng.pick(&[0, 200, 350]);
     cfg.p_empty_branch = *rng.pick(&[0, 150, 300]);
     cfg.max_steps = 1 + rng.below(4) as u32;
+    let looping = rng.below(4) == 0;
+    if looping {
+        cfg.max_steps = 1 + rng.below(3) as u32;
+    }
     let mut g = Gen::new(rng, cfg);
-    let m = g.workflow("m");
+    let mut m = g.workflow("m");
     let mut sc = Scenario::default();
+    let mut vars = valuation(rng, 3);
+    if looping {
+        add_loop(&mut m, rng);
+        vars.insert("c".into(), json!(0));
+    }
     sc.models.push(m);
-    sc.starts.push(Start { model: "m".into(), vars: valuation(rng, 3), pid: Some("p1".into()), at_q: 0 });
+    sc.starts.push(Start { model: "m".into(), vars, pid: Some("p1".into()), at_q: 0 });
     sc.engine.keep_processes = true;
     sc.capture = false;
     sc
+}
+
+/// reference interpretation of a model with the loop of `add_loop`: the list of final states of the instances of
+/// every node (None = the statements leave it open), the number of visits, and the within-visit ordering
+/// constraints
+fn ref_loop(m: &MWorkflow, vals: &BTreeMap<String, i64>) -> (BTreeMap<String, Option<Vec<String>>>, usize, Vec<(String, String)>, BTreeMap<String, String>) {
+    let mut inst: BTreeMap<String, Option<Vec<String>>> = BTreeMap::new();
+    let mut kinds: BTreeMap<String, String> = BTreeMap::new();
+    let mut after: Vec<(String, String)> = vec![];
+    let mut env = vals.clone();
+    let mut visits = 0usize;
+    let mut pc = 0usize;
+    let mut guard = 0;
+    let mut prev_top: Option<String> = None;
+    inst.insert(m.id.clone(), Some(vec!["completed".into()]));
+    kinds.insert(m.id.clone(), "workflow".into());
+    while pc < m.steps.len() && guard < 64 {
+        guard += 1;
+        let s = &m.steps[pc];
+        if let Some(p) = &prev_top {
+            if !after.contains(&(p.clone(), s.id.clone())) {
+                after.push((p.clone(), s.id.clone()));
+            }
+        }
+        prev_top = Some(s.id.clone());
+        if s.id == "linc" {
+            visits += 1;
+            *env.entry("c".into()).or_insert(0) += 1;
+        }
+        let p = refflow::predict_steps(std::slice::from_ref(s), &env);
+        for (nid, e) in &p.nodes {
+            kinds.insert(nid.clone(), p.kinds.get(nid).cloned().unwrap_or_default());
+            let slot = inst.entry(nid.clone()).or_insert_with(|| Some(vec![]));
+            match e {
+                Expect::Completed => {
+                    if let Some(v) = slot {
+                        v.push("completed".into())
+                    }
+                }
+                Expect::Skipped => {
+                    if let Some(v) = slot {
+                        v.push("skipped".into())
+                    }
+                }
+                Expect::Absent => {}
+                Expect::Either => *slot = None,
+            }
+        }
+        for c in p.after {
+            if !after.contains(&c) {
+                after.push(c);
+            }
+        }
+        if s.id == "ljmp" {
+            let taken = p.nodes.get("lb") == Some(&Expect::Completed);
+            if taken {
+                pc = m.steps.iter().position(|x| x.id == "linc").unwrap_or(0);
+                // the jump leads from lstep back to linc
+                prev_top = None;
+                continue;
+            }
+        }
+        pc += 1;
+    }
+    for v in inst.values_mut().flatten() {
+        v.sort();
+    }
+    (inst, visits, after, kinds)
+}
+
+fn loop_case(ctx: &mut CaseCtx, base: &Scenario) -> CaseOut {
+    let mut out = CaseOut { scenario: Some(base.clone()), ..Default::default() };
+    let m0 = base.models[0].clone();
+    // the fragment: the loop's own code act is the only writer
+    let mut plain = m0.clone();
+    plain.steps.retain(|s| s.id != "linc");
+    fn strip_next(steps: &mut [MStep]) {
+        for s in steps.iter_mut() {
+            if s.id == "lstep" {
+                s.next = None;
+            }
+            for b in s.branches.iter_mut() {
+                strip_next(&mut b.steps);
+            }
+        }
+    }
+    strip_next(&mut plain.steps);
+    if !refflow::in_control_fragment(&plain) {
+        out.discarded = Some("model outside the control fragment".into());
+        return out;
+    }
+    let vals: BTreeMap<String, i64> = base.starts[0].vars.iter().map(|(k, v)| (k.clone(), v.as_i64().unwrap_or(0))).collect();
+    let (inst, visits, after, kinds) = ref_loop(&m0, &vals);
+    let roles = imgx::branch_roles(&base.models);
+    ctx.count("probe.loop_model", 1);
+    if visits >= 2 {
+        ctx.count("probe.loop_taken_twice_or_more", 1);
+    }
+    let mut canon: Vec<BTreeMap<String, Vec<String>>> = vec![];
+    let mut scheds = vec![];
+    for variant in 0..2u8 {
+        let mut sc = base.clone();
+        let mut vr = vsim::rng::Rng::new(vsim::rng::mix(&[ctx.case_seed, 78, variant as u64]));
+        sc.models[0] = permute(&m0, if variant == 1 { 2 } else { 0 }, &mut vr);
+        sc.knobs = random_knobs(&mut vr);
+        sc.client.mode = ["sequential", "spawned"][variant as usize].to_string();
+        sc.client.order = if variant == 1 { "random".into() } else { "fifo".into() };
+        let rec = ctx.run(&sc);
+        if discard_if_broken(&rec, &mut out) {
+            return out;
+        }
+        scheds.push(rec.sched_hash);
+        let c = canonical(&rec);
+        let sig = |node: &str, how: &str, _want: &Vec<String>, _got: &Vec<String>| json!({"loop": true, "node": kinds.get(node).cloned().unwrap_or_default(), "role": roles.get(node).cloned().unwrap_or_default(), "how": how});
+        let _ = (&sig, 0);
+        for (nid, exp) in &inst {
+            let Some(w) = exp else { continue };
+            let got = c.get(nid).cloned().unwrap_or_default();
+            if &got != w {
+                let how = if got.len() != w.len() { "instance_count" } else if got.iter().any(|s| s == "running") { "left_running" } else { "wrong_final_state" };
+                out.violations.push(Violation::new("C04", "differs_from_reference", sig(nid, how, w, &got), format!("loop model, variant {} ({} visits expected for c<K from a={} b={}): node {} has instances with final states {:?}, the reference interpretation says {:?}", variant, visits, vals.get("a").unwrap_or(&0), vals.get("b").unwrap_or(&0), nid, got, w)));
+                break;
+            }
+        }
+        if out.violations.is_empty() {
+            for (nid, got) in &c {
+                if !inst.contains_key(nid) {
+                    out.violations.push(Violation::new("C04", "unknown_node_ran", json!({"got": got, "loop": true}), format!("loop model, variant {}: a task of node {} exists ({:?}) that the model does not declare", variant, nid, got)));
+                    break;
+                }
+            }
+        }
+        // ordering inside every visit: the trace is cut at the creations of `linc`
+        if out.violations.is_empty() {
+            let mut cuts: Vec<u64> = rec.trans.iter().filter(|t| t.nid == "linc" && t.old == "none").map(|t| t.seq).collect();
+            cuts.insert(0, 0);
+            cuts.push(u64::MAX);
+            'w: for wnd in cuts.windows(2) {
+                let inw = |t: &&TransRec| t.seq >= wnd[0] && t.seq < wnd[1];
+                for (a, b) in &after {
+                    let is_needs = roles.get(b).map(|r| r == "needs").unwrap_or(false);
+                    // instances are attributed to the visit in which they were created
+                    let created_here = |nid: &String| rec.trans.iter().filter(inw).filter(|t| &t.nid == nid && t.old == "none").map(|t| t.tid.clone()).collect::<Vec<_>>();
+                    let (ta, tb) = (created_here(a), created_here(b));
+                    if ta.is_empty() || tb.is_empty() {
+                        continue;
+                    }
+                    let a_term = rec.trans.iter().filter(|t| ta.contains(&t.tid) && is_terminal_state(&t.new)).map(|t| t.seq).min();
+                    let b_start = rec.trans.iter().filter(|t| tb.contains(&t.tid) && if is_needs { t.new == "running" } else { t.old == "none" }).map(|t| t.seq).min();
+                    if let Some(bs) = b_start {
+                        if a_term.map(|at| bs < at).unwrap_or(true) {
+                            let kind = kinds.get(b).cloned().unwrap_or_default();
+                            out.violations.push(Violation::new("C04", "started_before_predecessor_finished", json!({"node": kind, "role": roles.get(b).cloned().unwrap_or_default(), "loop": true, "first_visit": wnd[0] == 0 || cuts.get(1) == Some(&wnd[0])}), format!("loop model, variant {}: in the visit that starts at seq {} {} {} started at seq {} before its predecessor {} of the same visit was terminal ({:?})", variant, wnd[0], kind, b, bs, a, a_term)));
+                            break 'w;
+                        }
+                    }
+                }
+            }
+        }
+        if out.violations.is_empty() && !inst.values().any(|e| e.is_none()) {
+            let done = rec.msgs.iter().any(|m| m.via == "complete" && m.state == "completed");
+            if !done && !rec.step_cap_hit {
+                out.violations.push(Violation::new("C04", "process_did_not_complete", json!({"loop": true}), format!("loop model, variant {}: every interrupt was answered but the process did not deliver a completed event", variant)));
+            }
+        }
+        if !out.violations.is_empty() {
+            return out;
+        }
+        canon.push(c);
+    }
+    if canon[1] != canon[0] {
+        let diff: Vec<String> = canon[0].iter().filter(|(k, v)| canon[1].get(*k) != Some(v)).map(|(k, v)| format!("{}: {:?} vs {:?}", k, v, canon[1].get(k))).collect();
+        out.violations.push(Violation::new("C04", "outcome_depends_on_order_or_schedule", json!({"loop": true}), format!("loop model: variant 0 and variant 1 differ: {}", diff.join("; "))));
+        return out;
+    }
+    scheds.sort();
+    scheds.dedup();
+    out.nontrivial = visits >= 2;
+    out.outcome_hash = vsim::hash_str(&format!("{:?}", canon[0]));
+    out.sample = sample_of(base, json!({"valuation": vals, "visits": visits, "outcome": canon[0]}));
+    out
 }
 
 fn permute(m: &MWorkflow, mode: u8, rng: &mut vsim::rng::Rng) -> MWorkflow {
@@ -82,6 +272,9 @@ pub fn case(ctx: &mut CaseCtx) -> CaseOut {
     let base = ctx.scenario(gen_scenario);
     let mut out = CaseOut { scenario: Some(base.clone()), ..Default::default() };
     let m0 = base.models[0].clone();
+    if m0.steps.iter().any(|s| s.id == "linc") {
+        return loop_case(ctx, &base);
+    }
     if !refflow::in_control_fragment(&m0) {
         out.discarded = Some("model outside the control fragment".into());
         return out;
